@@ -126,7 +126,7 @@ def names(r):
     """Return the available names as a set in the Record otherwise ['UnknownRecord']."""
     if isinstance(r, WrappedRecord):
         # the compiled selector hands out a wrapper, look at the record itself
-        r = r.record
+        r = r._wrapped_record
     if isinstance(r, GroupedRecord):
         return set(sub_record._desc.name for sub_record in r.records)
     if isinstance(r, (Record, WrappedRecord)):
@@ -346,19 +346,20 @@ class Selector:
 class WrappedRecord:
     """WrappedRecord wraps a Record but will return a NoneObject for non existing attributes."""
 
-    __slots__ = ("record",)
+    # the slot name cannot be a field name (field names do not start with an underscore), so it shadows no field
+    __slots__ = ("_wrapped_record",)
 
     def __init__(self, record):
-        self.record = record
+        self._wrapped_record = record
 
     def __getattr__(self, k):
-        return getattr(self.record, k, NONE_OBJECT)
+        return getattr(self._wrapped_record, k, NONE_OBJECT)
 
     def __str__(self) -> str:
-        return str(self.record)
+        return str(self._wrapped_record)
 
     def __repr__(self) -> str:
-        return repr(self.record)
+        return repr(self._wrapped_record)
 
 
 class CompiledSelector:
